@@ -209,6 +209,14 @@ func (s *swamp) PatchFields(key string, ops []msgpackpatch.Op, condition *msgpac
 		inputBody []byte
 		isCreate  bool
 	)
+	// The record was looked up before its guard was taken. If it was deleted
+	// or shifted away in between it is no longer the live record of its key
+	// (a record that never reached the disk keeps its content when it is
+	// deleted, so the content-type check below does not notice): saving it
+	// would bring it back to life.
+	if !createdNew && !opts.CreateIfNotExist && s.beaconKey.Get(key) != treasureObj {
+		return PatchFieldsResult{Status: PatchStatusKeyNotFound}, nil
+	}
 	switch treasureObj.GetContentType() {
 	case treasure.ContentTypeVoid:
 		if !opts.CreateIfNotExist {
